@@ -76,7 +76,7 @@ def run(chk):
                     c = x["cond"]
                     if c[0] == "op" and c[1] in ("!=", "==") and (c[2] == cell or c[3] == cell):
                         other = c[3] if c[2] == cell else c[2]
-                        fatal = x["then_exits"] if c[1] == "!=" else x["else_exits"]
+                        fatal = (x.get("then_status") == "exit") if c[1] == "!=" else (x.get("else_status") == "exit")
                         if other[0] != "int":
                             detail = "tag compared with %s, not a constant" % sym.show(other)
                         elif not fatal:
@@ -120,16 +120,16 @@ def run(chk):
                         c = x["cond"]
                         t = ioseq._title_check(c)
                         if t and t[0] == obj and st8["title"] is None and not x.get("shortcircuit"):
-                            fatal = x["then_exits"] if t[2] else x["else_exits"]
+                            fatal = (x.get("then_status") == "exit") if t[2] else (x.get("else_status") == "exit")
                             st8["title"] = (fatal, t[1], x["l"])
                         n = _null_test(c, obj)
                         gt = scan(x["then"], guarded or n is False)
                         ge = scan(x["else"], guarded or n is True)
-                        if n is True and x["then_exits"] and not x.get("shortcircuit"):
+                        if n is True and (x.get("then_status") == "exit") and not x.get("shortcircuit"):
                             if not guarded and st8["null"] is None:
                                 st8["null"] = (st8["first_use"] is None, x["l"])
                             guarded = True
-                        elif n is False and x["else_exits"]:
+                        elif n is False and (x.get("else_status") == "exit"):
                             if not guarded and st8["null"] is None:
                                 st8["null"] = (st8["first_use"] is None, x["l"])
                             guarded = True
@@ -177,7 +177,7 @@ def run(chk):
                     if x["e"] == "if" and x["cond"][0] == "op" and x["cond"][1] in ("!=", "==", "<"):
                         a, b = x["cond"][2], x["cond"][3]
                         if {a, b} == {ret, want}:
-                            fatal = x["else_exits"] if x["cond"][1] == "==" else x["then_exits"]
+                            fatal = (x.get("else_status") == "exit") if x["cond"][1] == "==" else (x.get("then_status") == "exit")
                             ok = fatal
                             detail = "count %s request at line %s, mismatch %s" % (
                                 x["cond"][1], x["l"], "is fatal" if fatal else "returns to the caller")
